@@ -420,3 +420,122 @@ func (v *Verifier) mapRangeCovered(f *ssa.Function) bool {
 	}
 	return false
 }
+
+
+// ---------------------------------------------------------------------------------------------------------------------
+// C18: genesis footprint. For every module: each KV key prefix (constant passed to types.KeyPrefix) that some function of the
+// module writes under must be read by the closure of ExportGenesis and written by the closure of InitGenesis; otherwise state
+// reachable by transactions is lost in an export/import round trip. A frame obligation over the SSA of the module, decided by
+// scanning; no SMT involved.
+
+// keyPrefixConsts: string constants passed to <module>/types.KeyPrefix in f (resolved through package-level constants).
+func keyPrefixConsts(f *ssa.Function) []string {
+	var out []string
+	for _, b := range f.Blocks {
+		for _, ins := range b.Instrs {
+			c, ok := ins.(*ssa.Call)
+			if !ok {
+				continue
+			}
+			callee := c.Call.StaticCallee()
+			if callee == nil || callee.Name() != "KeyPrefix" || len(c.Call.Args) != 1 {
+				continue
+			}
+			if k, ok := c.Call.Args[0].(*ssa.Const); ok && k.Value != nil {
+				out = append(out, constantString(k))
+			}
+		}
+	}
+	return out
+}
+
+// writesKV: f performs a KVStore Set or Delete itself.
+func writesKV(f *ssa.Function) bool {
+	for _, b := range f.Blocks {
+		for _, ins := range b.Instrs {
+			c, ok := ins.(*ssa.Call)
+			if !ok {
+				continue
+			}
+			n := ""
+			if c.Call.IsInvoke() {
+				n = c.Call.Method.Name()
+				if (n == "Set" || n == "Delete") && strings.Contains(c.Call.Value.Type().String(), "KVStore") {
+					return true
+				}
+			} else if callee := c.Call.StaticCallee(); callee != nil {
+				n = callee.String()
+				if strings.HasPrefix(n, "(github.com/cosmos/cosmos-sdk/store/prefix.Store).Set") || strings.HasPrefix(n, "(github.com/cosmos/cosmos-sdk/store/prefix.Store).Delete") {
+					return true
+				}
+			}
+		}
+	}
+	return false
+}
+
+func (v *Verifier) genesisObligations() []detResult {
+	var out []detResult
+	for _, m := range repoModules {
+		mp := v.ssaPkgs[repoMod+"/x/"+m]
+		kp := v.ssaPkgs[repoMod+"/x/"+m+"/keeper"]
+		if mp == nil || kp == nil {
+			continue
+		}
+		written := map[string]string{}
+		for _, mem := range kp.Members {
+			var fns []*ssa.Function
+			switch x := mem.(type) {
+			case *ssa.Function:
+				fns = append(fns, x)
+			case *ssa.Type:
+				for _, T := range []types.Type{x.Type(), types.NewPointer(x.Type())} {
+					ms := v.prog.MethodSets.MethodSet(T)
+					for i := 0; i < ms.Len(); i++ {
+						if fn := v.prog.MethodValue(ms.At(i)); fn != nil && fn.Pkg == kp && fn.Synthetic == "" {
+							fns = append(fns, fn)
+						}
+					}
+				}
+			}
+			for _, f := range fns {
+				if f.Blocks == nil || !writesKV(f) {
+					continue
+				}
+				for _, c := range keyPrefixConsts(f) {
+					if _, ok := written[c]; !ok {
+						written[c] = f.Name()
+					}
+				}
+			}
+		}
+		seenIn := func(root *ssa.Function, needWrite bool) map[string]bool {
+			got := map[string]bool{}
+			if root == nil {
+				return got
+			}
+			for _, f := range v.closureOf(root) {
+				if needWrite && !writesKV(f) {
+					continue
+				}
+				for _, c := range keyPrefixConsts(f) {
+					got[c] = true
+				}
+			}
+			return got
+		}
+		exp := seenIn(mp.Func("ExportGenesis"), false)
+		ini := seenIn(mp.Func("InitGenesis"), true)
+		var hits []string
+		for _, c := range sortedKeys(written) {
+			if !exp[c] {
+				hits = append(hits, fmt.Sprintf("prefix %q (written by %s) is not read by ExportGenesis", c, written[c]))
+			}
+			if !ini[c] {
+				hits = append(hits, fmt.Sprintf("prefix %q (written by %s) is not written by InitGenesis", c, written[c]))
+			}
+		}
+		out = append(out, detResult{Name: fmt.Sprintf("gen@%s#footprint", m), OK: len(hits) == 0, Detail: fmt.Sprintf("%d prefixes written by module %s; ", len(written), m) + strings.Join(hits, "; "), Tags: []string{"C18"}})
+	}
+	return out
+}
